@@ -90,7 +90,7 @@ void h_findTemplate(void)
 '''
 
 R = [(r'assert\(targetNode != 0\);\s*assert\(targetNode->getNodeType\(\) == targetNodeType\);', '', 1),
-     (r'findTemplateInImports\(executionContext, targetNode, targetNodeType, mode\)', 'xv_findTemplateInImports(self)', 3),
+     (r'findTemplateInImports\(executionContext, targetNode, targetNodeType, mode\)', 'xv_findTemplateInImports(self)', (1, 3)),
      (r'executionContext\.getQuietConflictWarnings\(\)', 'xv_quiet(executionContext)', 1),
      (r'const PatternTableVectorType\*\s+matchPatternList =\s*locateMatchPatternDataList\(\*targetNode, targetNodeType\);\s*assert\(matchPatternList != 0\);', '', 2),
      (r'PatternTableVectorType::const_iterator\s+theCurrentEntry =\s*matchPatternList->begin\(\);', 'size_t theCurrentEntry = 0;', 2),
@@ -137,7 +137,7 @@ __CPROVER_ensures(/* XSLT 5.5: the first entry of the ordered rule list that is 
     (self->m_isWrapperless != true && onlyUseImports != true && g_first < g_n) ==> __CPROVER_return_value == g_firstE.rule)
 __CPROVER_ensures(/* no rule of this stylesheet matches: the imports decide */ (self->m_isWrapperless != true && onlyUseImports != true && g_first == g_n) ==> __CPROVER_return_value == g_imports)'''
 L_QUIET = '''__CPROVER_assigns(theCurrentEntry, bestMatchedRule, ''' + GH + ''')
-__CPROVER_loop_invariant(theCurrentEntry <= g_n && theCurrentEntry <= g_first && bestMatchedRule == 0)
+__CPROVER_loop_invariant(/* the quiet path stops at the first matching entry: nothing is chosen while entries before it are scanned */ theCurrentEntry <= g_n && theCurrentEntry <= g_first && bestMatchedRule == 0)
 __CPROVER_decreases(g_n - theCurrentEntry)'''
 L_REPORT = '''__CPROVER_assigns(theCurrentEntry, bestMatchedRule, bestMatchedPattern, bestMatchPatPriority, nConflicts, conflicts, prevMatchPat, XV_PREVPAT ''' + GH + ''')
 __CPROVER_loop_invariant(theCurrentEntry < g_n && nConflicts <= theCurrentEntry && g_local_conflicts == conflictsArray)
@@ -188,7 +188,7 @@ __CPROVER_ensures(/* at most one element is appended, after the existing ones */
     mutants=[
         Mutant('skip_by_pattern_text', ST, r'prevMatchPat->getTemplate\(\) == matchPat->getTemplate\(\)\)\)',
                'equals(*prevMatchPat->getPattern(), *matchPat->getPattern()) &&\n                             prevMatchPat->getTemplate()->getPriority() == matchPat->getTemplate()->getPriority()))', expect='first entry of the ordered rule list'),
-        Mutant('quiet_path_last_match_wins', ST, r'(if\(XPath::eMatchScoreNone != score\)\s*\{\s*bestMatchedRule = rule;\s*)break;', r'\1', expect='first entry of the ordered rule list'),
+        Mutant('quiet_path_last_match_wins', ST, r'(if\(XPath::eMatchScoreNone != score\)\s*\{\s*bestMatchedRule = rule;\s*)break;', r'\1', expect=None),
         Mutant('equal_priority_replaces_silently', ST, r'if\(priorityOfRule > priorityOfBestMatched\)', 'if(priorityOfRule >= priorityOfBestMatched)', expect='first entry of the ordered rule list'),
         Mutant('imports_not_consulted', ST, r'(\n            if \(0 == bestMatchedRule\)\s*\{\s*bestMatchedRule = findTemplateInImports\(executionContext, targetNode, targetNodeType, mode\);\s*\}\s*\}\s*return bestMatchedRule;)', r'\n        }\n\n        return bestMatchedRule;', expect=None),
     ],
